@@ -103,16 +103,25 @@ fn k_c03_path(depth: u8) {
 
 /// every point of the HEALPix image: hash_with_dxdy total, in range, offsets finite in [0, 1] up to rounding, cell contains the point,
 /// and sph_coo inverts it whenever both offsets are in [0, 1)
-fn k_c03_image(depth: u8, region: u8) {
+/// split by latitude band of the point and by base cell `b` of the returned cell (the range harness shows the cell number is
+/// in range, so the 12 classes are exhaustive): with a concrete base cell the containment oracle folds to one facet
+fn k_c03_image(depth: u8, region: u8, b: u8) {
   let x: f64 = kani::any();
   let y: f64 = kani::any();
   kani::assume(in_image(x, y, 8.881784197001252e-16));
   kani::assume(match region { 0 => y > 1.0, 1 => y >= -1.0 && y <= 1.0, _ => y < -1.0 });
   set_plane(x, y);
   let layer = hp::nested::get_or_create(depth);
-  kani::cover!(x == 4.0, "x = 4 (seam or base cell corner line)");
-  kani::cover!(x == 8.0, "x = 8");
   let (h, dx, dy) = layer.hash_with_dxdy(0.0, 0.0);
+  if b < 12 {
+    kani::assume(h >> (2 * depth as u32) == b as u64);
+    kani::cover!(true, "a point of the band is mapped to the base cell");
+    kani::cover!(x == 2.0 * (b & 3) as f64 + 2.0 || x == 2.0 * (b & 3) as f64 || x == 2.0 * (b & 3) as f64 + 1.0, "on a base cell corner / centre line");
+  } else {
+    // complement class of a polar band (expected to be empty): any base cell other than the 4 of the cap
+    let bb = h >> (2 * depth as u32);
+    kani::assume(if region == 0 { bb >= 4 } else { bb < 8 });
+  }
   assert!(h < spec_n_hash(depth), "C03: hash_with_dxdy out of range");
   let lo = c03_lo(depth);   // "up to rounding", see c03_lo
   assert!(dx >= lo && dx <= 1.0 && dy >= lo && dy <= 1.0, "C03: offsets not in [0, 1] (up to rounding)");
